@@ -17,6 +17,11 @@ open Machine Lower
 
 variable {W : Type}
 
+/-- how nested calls / includes are run at a given fuel: instantiated with `callValue cfg` / `execIncludes cfg`
+(or their cache-free versions) -/
+abbrev CallAt (W : Type) := Nat → CallFn W
+abbrev InclAt (W : Type) := Nat → Option String → List IncludeScript → State W → Res W
+
 /-- outcome of a structured statement / block; `fuel` is what is left -/
 inductive TOut (W : Type) where
   | norm (locals : Option Env) (st : State W) (fuel : Nat)
@@ -43,9 +48,9 @@ def assign (locals : Option Env) (st : State W) (n : Name) (v : Value) : Option 
   | none => (none, { st with globals := st.globals.set n v })
 
 /-- one lowered expression statement `name = e` (or bare `e`) -/
-def stmtExpr (cfg : Config W) (name : Option Name) (e : Expr) (fuel : Nat) (locals : Option Env) (st : State W) : TOut W :=
+def stmtExpr (cfg : Config W) (cv : CallAt W) (name : Option Name) (e : Expr) (fuel : Nat) (locals : Option Env) (st : State W) : TOut W :=
   tick cfg fuel st fun f st1 =>
-    match evalExpr cfg (callValue cfg f) locals e st1 with
+    match evalExpr cfg (cv f) locals e st1 with
     | .ok v st2 =>
         match name with
         | none => .norm locals st2 f
@@ -54,10 +59,10 @@ def stmtExpr (cfg : Config W) (name : Option Name) (e : Expr) (fuel : Nat) (loca
     | .oof => .oof
 
 /-- one lowered conditional jump: `k true` if the jump is taken -/
-def stmtCond (cfg : Config W) (c : Expr) (fuel : Nat) (locals : Option Env) (st : State W)
+def stmtCond (cfg : Config W) (cv : CallAt W) (c : Expr) (fuel : Nat) (locals : Option Env) (st : State W)
     (k : Bool → Nat → State W → TOut W) : TOut W :=
   tick cfg fuel st fun f st1 =>
-    match evalExpr cfg (callValue cfg f) locals c st1 with
+    match evalExpr cfg (cv f) locals c st1 with
     | .ok v st2 => k (cfg.host.truthy v st2.world) f st2
     | .err e st2 => .err e st2
     | .oof => .oof
@@ -68,33 +73,33 @@ def stmtSkip (cfg : Config W) (fuel : Nat) (locals : Option Env) (st : State W) 
 
 /-- `while`, entered just after `label loop`; `n` bounds the number of iterations (never binding: each iteration
 burns fuel).  F7: `continue` re-enters the body without re-testing the condition. -/
-def loopW (cfg : Config W) (c : Expr) (body : Nat → Option Env → State W → TOut W) :
+def loopW (cfg : Config W) (cv : CallAt W) (c : Expr) (body : Nat → Option Env → State W → TOut W) :
     Nat → Nat → Option Env → State W → TOut W
   | 0, _, _, _ => .oof
   | n+1, fuel, locals, st =>
     match body fuel locals st with
     | .norm l1 st1 f1 =>
-        stmtCond cfg c f1 l1 st1 fun taken f2 st2 =>
-          if taken then loopW cfg c body n f2 l1 st2
+        stmtCond cfg cv c f1 l1 st1 fun taken f2 st2 =>
+          if taken then loopW cfg cv c body n f2 l1 st2
           else stmtSkip cfg f2 l1 st2                       -- label done
     | .brk l1 st1 f1 => .norm l1 st1 f1
-    | .cont l1 st1 f1 => loopW cfg c body n f1 l1 st1
+    | .cont l1 st1 f1 => loopW cfg cv c body n f1 l1 st1
     | o => o
 
 /-- `for`, entered just after `label loop` (before `value = arrayGet(values, index)`) -/
-def loopF (cfg : Config W) (i : Nat) (v ixv : Name) (hasCont : Bool) (body : Nat → Option Env → State W → TOut W) :
+def loopF (cfg : Config W) (cv : CallAt W) (i : Nat) (v ixv : Name) (hasCont : Bool) (body : Nat → Option Env → State W → TOut W) :
     Nat → Nat → Option Env → State W → TOut W
   | 0, _, _, _ => .oof
   | n+1, fuel, locals, st =>
-    match stmtExpr cfg (some v) (.function fnArrayGet [.variable (vValues i), .variable ixv]) fuel locals st with
+    match stmtExpr cfg cv (some v) (.function fnArrayGet [.variable (vValues i), .variable ixv]) fuel locals st with
     | .norm l0 st0 f0 =>
       let footer (viaCont : Bool) (l1 : Option Env) (st1 : State W) (f1 : Nat) : TOut W :=
         -- `label continue` costs a tick only when reached by falling through
         let afterLabel (l2 : Option Env) (st2 : State W) (f2 : Nat) : TOut W :=
-          match stmtExpr cfg (some ixv) (.binary .add (.variable ixv) (.number 1)) f2 l2 st2 with
+          match stmtExpr cfg cv (some ixv) (.binary .add (.variable ixv) (.number 1)) f2 l2 st2 with
           | .norm l3 st3 f3 =>
-              stmtCond cfg (.binary .lt (.variable ixv) (.variable (vLength i))) f3 l3 st3 fun taken f4 st4 =>
-                if taken then loopF cfg i v ixv hasCont body n f4 l3 st4
+              stmtCond cfg cv (.binary .lt (.variable ixv) (.variable (vLength i))) f3 l3 st3 fun taken f4 st4 =>
+                if taken then loopF cfg cv i v ixv hasCont body n f4 l3 st4
                 else stmtSkip cfg f4 l3 st4                 -- label done
           | o => o
         if hasCont && !viaCont then
@@ -111,12 +116,12 @@ def loopF (cfg : Config W) (i : Nat) (v ixv : Name) (hasCont : Bool) (body : Nat
 
 mutual
 /-- `i` = the value of the script-wide label counter when the statement is lowered (names the hidden `for` variables) -/
-def execTS (cfg : Config W) (inLoop : Bool) : SStmt → Nat → Nat → Option Env → Option String → State W → TOut W
-  | .expr n e, _, fuel, locals, _, st => stmtExpr cfg n e fuel locals st
+def execTS (cfg : Config W) (cv : CallAt W) (ei : InclAt W) (inLoop : Bool) : SStmt → Nat → Nat → Option Env → Option String → State W → TOut W
+  | .expr n e, _, fuel, locals, _, st => stmtExpr cfg cv n e fuel locals st
   | .ret none, _, fuel, _, _, st => tick cfg fuel st fun _ st1 => .ret .null st1
   | .ret (some e), _, fuel, locals, _, st =>
       tick cfg fuel st fun f st1 =>
-        match evalExpr cfg (callValue cfg f) locals e st1 with
+        match evalExpr cfg (cv f) locals e st1 with
         | .ok v st2 => .ret v st2
         | .err e st2 => .err e st2
         | .oof => .oof
@@ -124,9 +129,9 @@ def execTS (cfg : Config W) (inLoop : Bool) : SStmt → Nat → Nat → Option E
   | .jump l _, _, _, _, _, st => .err (.unknownLabel l) st       -- raw jumps have no structured meaning (excluded by `NoRaw`)
   | .include incs, _, fuel, locals, base, st =>
       tick cfg fuel st fun f st1 =>
-        match execIncludes cfg f base incs st1 with
+        match ei f base incs st1 with
         | .done st2 => .norm locals st2 f
-        | .ret _ st2 => .norm locals st2 f
+        | .ret v st2 => .ret v st2                                -- unreachable: `execIncludes` never returns `.ret`
         | .err e st2 => .err e st2
         | .oof => .oof
   | .brk, _, fuel, locals, _, st => if inLoop then tick cfg fuel st fun f st1 => .brk locals st1 f else .norm locals st fuel
@@ -134,61 +139,61 @@ def execTS (cfg : Config W) (inLoop : Bool) : SStmt → Nat → Nat → Option E
   | .func fid n _ _ _ _, _, fuel, locals, _, st =>
       tick cfg fuel st fun f st1 => .norm locals { st1 with globals := st1.globals.set n (.fn (.script fid)) } f
   | .ite c t e, i, fuel, locals, base, st =>
-      stmtCond cfg (notE c) fuel locals st fun taken f st1 =>
-        if taken then execTE cfg inLoop e (cntB t (i+1)) f locals base st1
+      stmtCond cfg cv (notE c) fuel locals st fun taken f st1 =>
+        if taken then execTE cfg cv ei inLoop e (cntB t (i+1)) f locals base st1
         else
-          match execTB cfg inLoop t (i+1) f locals base st1 with
+          match execTB cfg cv ei inLoop t (i+1) f locals base st1 with
           | .norm l2 st2 f2 => stmtSkip cfg f2 l2 st2          -- `label done` (no else) or `jump done`
           | o => o
   | .while c b, i, fuel, locals, base, st =>
-      stmtCond cfg (notE c) fuel locals st fun taken f st1 =>
+      stmtCond cfg cv (notE c) fuel locals st fun taken f st1 =>
         if taken then .norm locals st1 f
         else
           match stmtSkip cfg f locals st1 with                  -- label loop
-          | .norm l2 st2 f2 => loopW cfg c (fun f l s => execTB cfg true b (i+1) f l base s) (f2 + 1) f2 l2 st2
+          | .norm l2 st2 f2 => loopW cfg cv c (fun f l s => execTB cfg cv ei true b (i+1) f l base s) (f2 + 1) f2 l2 st2
           | o => o
   | .for v ix vals b, i, fuel, locals, base, st =>
       let ixv := ix.getD (vIndex i)
-      match stmtExpr cfg (some (vValues i)) vals fuel locals st with
+      match stmtExpr cfg cv (some (vValues i)) vals fuel locals st with
       | .norm l1 st1 f1 =>
-        match stmtExpr cfg (some (vLength i)) (.function fnArrayLength [.variable (vValues i)]) f1 l1 st1 with
+        match stmtExpr cfg cv (some (vLength i)) (.function fnArrayLength [.variable (vValues i)]) f1 l1 st1 with
         | .norm l2 st2 f2 =>
-          stmtCond cfg (notE (.variable (vLength i))) f2 l2 st2 fun taken f3 st3 =>
+          stmtCond cfg cv (notE (.variable (vLength i))) f2 l2 st2 fun taken f3 st3 =>
             if taken then .norm l2 st3 f3
             else
-              match stmtExpr cfg (some ixv) (.number 0) f3 l2 st3 with
+              match stmtExpr cfg cv (some ixv) (.number 0) f3 l2 st3 with
               | .norm l4 st4 f4 =>
                 match stmtSkip cfg f4 l4 st4 with               -- label loop
                 | .norm l5 st5 f5 =>
-                    loopF cfg i v ixv (usesContB b) (fun f l s => execTB cfg true b (i+1) f l base s) (f5 + 1) f5 l5 st5
+                    loopF cfg cv i v ixv (usesContB b) (fun f l s => execTB cfg cv ei true b (i+1) f l base s) (f5 + 1) f5 l5 st5
                 | o => o
               | o => o
         | o => o
       | o => o
-def execTB (cfg : Config W) (inLoop : Bool) : List SStmt → Nat → Nat → Option Env → Option String → State W → TOut W
+def execTB (cfg : Config W) (cv : CallAt W) (ei : InclAt W) (inLoop : Bool) : List SStmt → Nat → Nat → Option Env → Option String → State W → TOut W
   | [], _, fuel, locals, _, st => .norm locals st fuel
   | s :: ss, i, fuel, locals, base, st =>
-      match execTS cfg inLoop s i fuel locals base st with
-      | .norm l1 st1 f1 => execTB cfg inLoop ss (cntS s i) f1 l1 base st1
+      match execTS cfg cv ei inLoop s i fuel locals base st with
+      | .norm l1 st1 f1 => execTB cfg cv ei inLoop ss (cntS s i) f1 l1 base st1
       | o => o
-def execTE (cfg : Config W) (inLoop : Bool) : SElse → Nat → Nat → Option Env → Option String → State W → TOut W
+def execTE (cfg : Config W) (cv : CallAt W) (ei : InclAt W) (inLoop : Bool) : SElse → Nat → Nat → Option Env → Option String → State W → TOut W
   | .none, _, fuel, locals, _, st => .norm locals st fuel
   | .els b, i, fuel, locals, base, st =>
-      match execTB cfg inLoop b i fuel locals base st with
+      match execTB cfg cv ei inLoop b i fuel locals base st with
       | .norm l1 st1 f1 => stmtSkip cfg f1 l1 st1               -- label done
       | o => o
   | .elif c t e, i, fuel, locals, base, st =>
-      stmtCond cfg (notE c) fuel locals st fun taken f st1 =>
-        if taken then execTE cfg inLoop e (cntB t (i+1)) f locals base st1
+      stmtCond cfg cv (notE c) fuel locals st fun taken f st1 =>
+        if taken then execTE cfg cv ei inLoop e (cntB t (i+1)) f locals base st1
         else
-          match execTB cfg inLoop t (i+1) f locals base st1 with
+          match execTB cfg cv ei inLoop t (i+1) f locals base st1 with
           | .norm l2 st2 f2 => stmtSkip cfg f2 l2 st2
           | o => o
 end
 
 /-- a whole structured script, as `execute_script (parse_script text)` runs it -/
 def runT (cfg : Config W) (fuel : Nat) (B : List SStmt) (base : Option String) (st : State W) : Res W :=
-  match execTB cfg false B 0 fuel none base { st with count := 0 } with
+  match execTB cfg (callValue cfg) (execIncludes cfg) false B 0 fuel none base { st with count := 0 } with
   | .norm _ st' _ => .done st'
   | .brk _ st' _ => .done st'
   | .cont _ st' _ => .done st'
